@@ -118,6 +118,22 @@ CHECKS["C19"] = dict(
     technique="bounded symbolic execution of the real validation code with path exploration + z3 feasibility / witness; replay on real code",
     ref="5/C19")
 
+CHECKS["C06"] = dict(
+    text="Decided at the parsed-state level: every unit string of both tables against its exact definition (complete enumeration, 1e-6); the real import_value on annotated scalar / vector / "
+         "array encodings with symbolic numbers vs pre-converted; twin parses of the real set_state on (u,v,w) vs airspeed+alpha+beta for body / stability / wind rate frames, Euler vs quaternion, "
+         "annotated vs pre-converted position through add_aircraft / set_aircraft_state, scalar vs constant-array distributions on both sides; integer vs float lists (concrete differential).",
+    note="Results are functions of the parsed state (C02/C12). The stored velocity of the (V,alpha,beta) encoding relies on the trigonometric round trip of set_aerodynamic_state, compared concretely only.",
+    technique="relational bounded symbolic execution of the real parsers (twin encodings) + z3; replay on real code",
+    ref="5/C06")
+CHECKS["C20"] = dict(
+    text="Partial: (H1) the real CLI runner with a recording Scene stand-in over enumerated command lists: call order, default file names, unknown commands skipped, parameters unchanged; "
+         "(H2) for every analysis with filename= the object handed to json.dump is the returned object (symbolic leaves), CSV columns equal the returned distributions (concrete differential); "
+         "(H3) write-monitored input dictionaries with symbolic leaves through construction and all analyses: no write reaches a caller-owned dict/list on any explored path, scenes built from "
+         "one dictionary are independent.",
+    note="H3 is monitored under symbolic execution (the solver only decides path feasibility); STL/VTK bytes, CSV number formatting, subprocess runs and symbolic file names are outside.",
+    technique="bounded symbolic execution with recording / write-monitoring stubs + z3 path feasibility; replay on real code",
+    ref="5/C20")
+
 NOT_APPLICABLE = {
     "C18": "classical lifting-line limits: a convergence statement about the N>=20 discrete solution (value and rate under grid refinement); no bounded SMT encoding of the 40x40 transcendental system is within reach and the small N the engine handles is where the claim is not expected to hold",
 }
